@@ -544,6 +544,46 @@ def gen_batch_schedule(rng, cfg, T=None, big=False):
     return b.ops
 
 
+def gen_long_interval_plan(rng, prop, names_kind=None):
+    """An IntervalSage whose interval_length arrives as a narrow NumPy integer, on a stream long enough for the
+    call ordinal to pass the range of that type (128 / 256 calls)."""
+    cfg = gen_batch_config(rng, arith="float", names_kind=names_kind, classes=["interval"])
+    cfg["explainers"] = cfg["explainers"][:1]
+    e = cfg["explainers"][0]
+    e["interval_length"] = rng.randint(2, 7)
+    e["interval_length_type"] = rng.choice(["int8", "uint8", "int8", "uint8", "int16", "int64"])
+    e["n_inner"] = 1
+    e["storage_length"] = rng.randint(1, 4)
+    if "storage" in e:
+        cfg["storages"][e["storage"]]["size"] = rng.randint(1, 4)
+    b = Builder(rng, cfg)
+    T = rng.randint(140, 300)
+    while len(b.ops) < T:
+        if rng.random() < 0.93:
+            b.explain(0)
+        else:
+            b.add({"op": "observe", "e": 0})
+    strip_private(cfg)
+    return {"property": prop, "kind": "explainer", "config": cfg, "ops": b.ops, "rs0": rng.getrandbits(48)}
+
+
+def gen_max_inner_plan(rng, prop, names_kind=None):
+    """n_inner_samples at the top of a narrow NumPy integer type (127 as int8, 255 as uint8) on a few rows."""
+    cfg = gen_batch_config(rng, arith="float", names_kind=names_kind, classes=["batch"])
+    cfg["explainers"] = cfg["explainers"][:1]
+    cfg["names"] = cfg["names"][:2]
+    e = cfg["explainers"][0]
+    e.pop("n_inner", None)
+    ops = gen_batch_schedule(rng, cfg, T=rng.randint(2, 5))
+    n, t = rng.choice([(127, "int8"), (255, "uint8")])
+    ops.append({"op": "explain", "e": 0, "tag": 1998, "rs": rng.getrandbits(48)})     # the background is not empty
+    for original in rng.sample([True, False], 2):
+        ops.append({"op": "many_orig" if original else "many", "e": 0, "tags": [2000 + j for j in range(rng.randint(2, 3))],
+                    "n_inner": n, "n_inner_type": t, "rs": rng.getrandbits(48)})
+    strip_private(cfg)
+    return {"property": prop, "kind": "explainer", "config": cfg, "ops": ops, "rs0": rng.getrandbits(48)}
+
+
 def gen_batch_plan(rng, prop, big=False, huge=False, **kw):
     if huge:
         kw["arith"] = "float"
